@@ -61,6 +61,19 @@ def planted():
                        W(2, 0, 5), ["sett", 1, ["cell", 1, ci, 6]], W(0, 0, 4)])
             ps.append([tab, ["drop", 0], ["setattr", 0, ci, ["tup", t]], ["newvec", [], "late", t], ["colview", 0, ci],
                        W(2, 0, 5), W(1, 1, 4)])
+    # THREE (and four) vectors over one tuple; all but one die - neighbours in registration order, the first ones, the last ones,
+    # alternating - and the survivor writes at once: dead references never count, however many and wherever they sit
+    for t in (0, 1):
+        for k, dead in ((3, [1, 2]), (3, [0, 1]), (3, [0, 2]), (4, [1, 2]), (4, [1, 2, 3]), (4, [0, 1, 2]), (4, [0, 2, 3]), (4, [0, 1, 3])):
+            alive = [q for q in range(k) if q not in dead]
+            prog = [["newvec", [], f"v{q}", t] for q in range(k)]
+            for d in sorted(dead, reverse=True):
+                prog.append(["drop", d])
+            # after the drops the survivors sit in slots 0 .. len(alive)-1
+            prog += [W(0, 0, 7)] if len(alive) == 1 else [W(0, 0, 7), W(1, 0, 8)]
+            ps.append(prog)
+            ps.append([["newvec", [], f"v{q}", t] for q in range(k)] + [["cycle_drop", d] for d in sorted(dead, reverse=True)]
+                      + [["gc"], W(0, 0, 7)])
     # a table BUILT from a dict whose values are the caller's tuples - one tuple for two columns, or a tuple a live vector was
     # built over: every column owns its storage (cell writes, column views) and the caller's vector stays writable
     for t in (0, 1):
